@@ -6,15 +6,18 @@ import re
 from .lib import hir as H
 from .lib import mir as M
 
-EXPL = ("Path rule (E3) on the loop of main::run_prompt: the state carried into the next iteration (symtab, constants, "
-        "globals) on each rejection path must be the state that entered the iteration. Parse rejection: `continue` is "
-        "reached before any of the three is moved or assigned. Compile rejection: on the path from the Err arm of "
-        "compiler.compile to the back edge neither symtab nor constants is assigned from the failed compiler (its tables "
-        "are tainted: let/fn names are defined before their value is compiled and function scopes are not left on error); "
-        "they must be restored from copies taken before the compiler received them. Runtime error: globals are taken "
-        "back from the VM and the compiler's tables kept (the line was accepted). VM and Compiler are fresh per line "
-        "and the REPL passes its own (empty) argv. Decides the 'no effect' clause structurally; equivalence of "
-        "accumulated output with a script is not decided.")
+EXPL = ("Value-provenance analysis (E3) of the read-eval loop of main::run_prompt over its MIR (helpers of main.rs inlined): the "
+        "session state are the locals of the symbol-table / object-vector types that live across the loop's back edge. Every path "
+        "of the loop body is explored with an abstract value per local (the value at the start of the iteration, a clone of it, the "
+        "line's Compiler built from two of them, its status after compile() returned Ok or Err, the line's VM, a field moved out of "
+        "one of these, a value modified in place). On every path that leaves through the None edge of parse_program or the Err edge "
+        "of Compiler::compile, each state local must again hold its start value or a copy of it when the back edge is reached "
+        "(nothing of the rejected line is carried over; the failed compiler's tables are tainted because names are defined before "
+        "their value is compiled). On paths of an accepted line (also one ending in a runtime error) the state must be the tables "
+        "of that line's compiler and the store of that line's VM, each built from this session's own state. The formulation does "
+        "not depend on whether the loop saves copies and puts them back or hands copies to the compiler. VM and Compiler are created "
+        "inside the loop, the REPL passes its own argv, the store has GLOBALS_SIZE entries, and main.rs never shrinks or reorders a "
+        "pool it carries between lines. Equivalence of accumulated output with a script is not decided.")
 
 
 def run(F, R, tier):
@@ -23,83 +26,80 @@ def run(F, R, tier):
     rp = F.fn("run_prompt")
     if not R.anchor("main::run_prompt", rp):
         return
-    b = H.body_of(rp)
-    loops = [x for x in H.walk(b) if x.get("k") == "loop" and x.get("src") == "Loop"]
-    if not R.anchor("run_prompt: the read-eval loop", len(loops) >= 1):
+    from .lib import session as S
+    res = S.analyse(F, "run_prompt")
+    if not R.anchor("run_prompt: read-eval loop with its session state (%s)" % res.get("error", "found"), "error" not in res):
         return
-    lp = loops[0]
-    # ---- (a) parse rejection: the None arm of parse_program is `continue` and nothing was assigned before it
-    ms = [m for m in H.walk(lp) if m.get("k") == "match" and not H.is_try(m) and "parse_program" in H.render(m["scrut"])]
-    ok = False
-    if len(ms) == 1:
-        for a in ms[0]["arms"]:
-            if H.render_pat(a["pat"]) == "v1::None":
-                ok = H.render(H.strip(a["body"])) == "continue"
-    R.ob("parse-rejection", "parse errors → continue with untouched state", ok, H.render(ms[0])[:120] if ms else "", F.loc(rp))
-    # statements of the per-line block in order
-    seq = []
-
-    def stmts_of(n):
-        for x in H.walk(n):
-            if x.get("k") == "block":
-                txt = [H.render(s.get("e") or s.get("init") or {})[:60] for s in x.get("stmts", [])]
-                if any("parse_program" in t for t in txt) or any("Compiler::new_with_state" in H.render(s) for s in x.get("stmts", [])):
-                    return x
-        return None
-    blk = stmts_of(lp)
-    if not R.anchor("run_prompt: per-line block", blk is not None):
-        return
-    state_vars = ("symtab", "constants", "globals")
-    events = []
-    for s in blk.get("stmts", []):
-        if s["k"] == "let":
-            nm = s["pat"].get("name") if s["pat"].get("k") == "bind" else None
-            events.append(("let", nm, H.render(s.get("init"))[:80], s))
-        else:
-            events.append(("stmt", None, H.render(s["e"])[:80], s))
-    # ---- (b) compile rejection -----------------------------------------------------------------------------------------
-    comp = [x for x in H.walk(blk) if x.get("k") == "if" and "compiler.compile(program)" in H.render(x["c"]) and "Err" in H.render(x["c"])]
-    if R.anchor("run_prompt: `if let Err(e) = compiler.compile(program)`", len(comp) == 1):
-        br = comp[0]["t"]
-        assigns = [(H.render(x["l"]), H.render(x["r"])) for x in H.walk(br) if x.get("k") == "assign"]
-        tainted = [(l, r) for l, r in assigns if l in state_vars and r.startswith("compiler.")]
-        R.ob("compile-rejection", "no state is taken from the failed compiler", not tainted,
-             "assignments on the error path: %s" % assigns, F.loc(rp, comp[0].get("line")))
-        # what is restored must be a copy taken before the compiler received the state
-        saved = {}
-        order = []
-        for kind, nm, txt, s in events:
-            if kind == "let" and nm and re.match(r"^(symtab|constants)\.clone\(\)$", txt):
-                saved[nm] = txt.split(".")[0]
-                order.append("save:" + nm)
-            if "Compiler::new_with_state(symtab, constants)" in txt:
-                order.append("compiler")
-        restored = {l: r for l, r in assigns if l in ("symtab", "constants")}
-        ok = set(restored) == {"symtab", "constants"} and all(saved.get(r) == l for l, r in restored.items()) and \
-            order[-1:] == ["compiler"] and len(order) == 3
-        R.ob("compile-rejection", "symtab and constants are restored from copies taken before Compiler::new_with_state", ok,
-             "restored %s; saved %s; order %s" % (restored, saved, order), F.loc(rp, comp[0].get("line")))
-        R.ob("compile-rejection", "the error path ends the iteration (continue) without running the VM", H.diverges(br) and "VM::" not in H.render(br), "", F.loc(rp))
-    # ---- (c) runtime error: globals taken back, compiler tables kept -----------------------------------------------------------
-    rte = [x for x in H.walk(blk) if x.get("k") == "if" and H.render(x["c"]).startswith("let v1::Err(err) = err")]
-    if R.anchor("run_prompt: runtime-error branch", len(rte) == 1):
-        assigns = {H.render(x["l"]): H.render(x["r"]) for x in H.walk(rte[0]["t"]) if x.get("k") == "assign"}
-        R.ob("runtime-error-keeps-line", "globals := vm.globals, symtab/constants := compiler's", assigns == {
-            "globals": "vm.globals", "symtab": "compiler.symtab", "constants": "compiler.constants"}, str(assigns), F.loc(rp))
-    tail = {H.render(s["e"]["l"]): H.render(s["e"]["r"]) for s in blk.get("stmts", []) if s["k"] in ("semi", "expr") and s["e"].get("k") == "assign"}
-    R.ob("accepted-line-state", "after a successful line: globals := vm.globals, symtab/constants := compiler's", tail == {
-        "globals": "vm.globals", "symtab": "compiler.symtab", "constants": "compiler.constants"}, str(tail), F.loc(rp))
-    # ---- (d) fresh VM / compiler per line, REPL argv ----------------------------------------------------------------------------
-    txt = [t for _, _, t, _ in events]
+    B, (h, body), state = res["body"], res["loop"], res["state_locals"]
+    names = {l: B.local_name(l) for l in state}
+    R.count("REPL session-state locals", len(state))
+    R.count("rejected paths to the back edge", res["rejected_paths"])
+    R.count("accepted paths to the back edge", len(res["accepted"]))
+    # ---- (a)+(b) rejection: parse errors and compile errors carry nothing of the line into the next iteration -------------------
+    R.ob("rejection-carries-nothing", "on every path from a parse error or a compile error to the next prompt, symtab / constants / globals hold the values "
+         "(or copies of the values) they had before the line", res["ok"] and res["kinds"] == ["compile", "parse"],
+         "; ".join(res["problems"])[:400] if res["problems"] else "%d rejected paths (%s errors) explored over %s" % (res["rejected_paths"], " and ".join(res["kinds"]) or "no", res["state"]), F.loc(rp))
+    # ---- (c) accepted lines (also those that end in a runtime error): the state is what the line's compiler and VM hand back ------
+    bad = []
+    n_line = 0
+    for shown, raw in res["accepted"]:
+        if all(t and t[0] == "orig" for t in raw.values()):
+            continue  # nothing was compiled (empty line, prompt error)
+        n_line += 1
+        comps = {t[1] for t in raw.values() if t and t[0] == "from" and t[1] and t[1][0] == "compiler"}
+        vms = {t[1] for t in raw.values() if t and t[0] == "from" and t[1] and t[1][0] == "vm"}
+        ok = len(comps) == 1 and len(vms) == 1
+        if ok:
+            comp, vm = next(iter(comps)), next(iter(vms))
+            src = [a for a in comp[1:3]] + [vm[1]]
+            # the compiler / VM of the line were built from this session's state (or copies of it), each from its own slot
+            ok = all(a and a[0] in ("orig", "clone") for a in src) and len({a[1] for a in src if a}) == 3 and comp[3] == "ok"
+            for l, t in raw.items():
+                want_field = {comp[1][1]: "symtab", comp[2][1]: "constants", vm[1][1]: "globals"}.get(l) if ok else None
+                ok = ok and t[0] == "from" and t[2] == want_field
+        if not ok:
+            bad.append(str(shown))
+    R.ob("accepted-line-state", "after an accepted line (also one that ends in a runtime error) symtab / constants are the compiler's and globals the VM's, "
+         "each built from this session's own state", not bad and n_line >= 1, "; ".join(bad)[:300] if bad else "%d accepted paths" % n_line, F.loc(rp))
+    # ---- (d) fresh VM / compiler per line, REPL argv ------------------------------------------------------------------------------
+    in_loop = lambda suffix: [b for b in M.call_blocks(B, lambda t: (t.get("callee") or "").endswith(suffix)) if b in body]
+    anywhere = lambda suffix: M.call_blocks(B, lambda t: (t.get("callee") or "").endswith(suffix))
     R.ob("fresh-per-line", "Compiler::new_with_state and VM::new_with_global_store are created inside the per-line block",
-         any("Compiler::new_with_state(symtab, constants)" in t for t in txt) and any("VM::new_with_global_store(bytecode, globals)" in t for t in txt), "", F.loc(rp))
-    R.ob("fresh-per-line", "init_builtin_vars(&vm, args.clone()) uses the REPL's argv", any(t.startswith("init_builtin_vars(&vm, args.clone())") for t in txt), "", F.loc(rp))
+         bool(in_loop("Compiler::new_with_state")) and bool(in_loop("VM::new_with_global_store")) and
+         set(in_loop("Compiler::new_with_state")) == set(anywhere("Compiler::new_with_state")) and set(in_loop("VM::new_with_global_store")) == set(anywhere("VM::new_with_global_store")),
+         "", F.loc(rp))
+    ib = in_loop("init_builtin_vars")
+    argv_ok = bool(ib)
+    for b_ in ib:
+        t = B.blocks[b_]["term"]
+        src = [x for a in t["args"] for x in M.subterms(B.sym_op(a, through_vars=True)) if x[0] == "arg"]
+        argv_ok = argv_ok and any(x[2] == 1 for x in src)
+    R.ob("fresh-per-line", "init_builtin_vars receives the REPL's own argv for every line", argv_ok, "%d calls in the loop" % len(ib), F.loc(rp))
     # who constructs the globals vector: GLOBALS_SIZE entries
+    gs = F.const("vm::interpreter::GLOBALS_SIZE")
     for fn in ("run_prompt", "run_buf"):
         g = F.fn(fn)
-        if g:
-            inits = [H.render(x.get("init")) for x in H.walk(H.body_of(g)) if x.get("k") == "let" and x.get("pat", {}).get("name") == "globals"]
-            R.ob("globals-size", "%s builds globals with GLOBALS_SIZE entries" % fn, inits == ["vec::from_elem(data, GLOBALS_SIZE)"], str(inits), F.loc(g))
+        if not g:
+            continue
+        f2, _ = M.inline_calls(F, g, lambda c: F.fns[c]["file"] == g["file"] and c not in ("parse_program", "init_builtin_vars", "run_filters") and len(F.fns[c]["mir"]["blocks"]) <= 150, depth=2)
+        Bg = M.Body(f2)
+        srcs = []
+        for b_ in M.call_blocks(Bg, lambda t: (t.get("callee") or "").endswith("VM::new_with_global_store")):
+            a = Bg.blocks[b_]["term"]["args"][1]
+            sym = Bg.sym_op(a, through_vars=True)
+            # through the loop-carried variable: the definitions of that local outside any call result of the loop
+            if sym[0] in ("var",):
+                for (bi, si, node) in Bg.defs().get(sym[2], []):
+                    if si == "term":
+                        srcs.append(("call", node.get("callee"), tuple(Bg.sym_op(x, through_vars=True) for x in node["args"])))
+                    else:
+                        srcs.append(Bg.sym_rv(node["rv"], through_vars=True))
+            else:
+                srcs.append(sym)
+        creators = [x for x in srcs if x[0] == "call" and x[1] == "std::vec::from_elem"]
+        ok = bool(creators) and all(len(x[2]) == 2 and x[2][1][0] == "const" and x[2][1][1] == gs for x in creators)
+        R.ob("globals-size", "%s builds globals with GLOBALS_SIZE entries" % fn, ok and isinstance(gs, int),
+             "the store handed to the VM is created by %s" % [M.show(x)[:60] for x in creators], F.loc(g))
     # ---- the session's constant pool and global store only grow ------------------------------------------------------------------
     # Code of an accepted line stays alive in closures and refers to constants by pool index and to globals by slot: the
     # REPL driver (main.rs) never shrinks or reorders a Vec<Rc<Object>> it carries from line to line (truncate / clear /
